@@ -134,3 +134,286 @@ def lemmas():
 
 KEYS_VISIT = ["_Renamer.visit_Name"]
 HOOKS_VISIT = {"isinstance": V.isinstance_hook, "getattr": V.getattr_hook}
+
+
+# ================================================================ (2) rename_genes
+from . import c03_context as C3  # noqa
+from . import c02_remove_genes as RG  # noqa
+from pyvc.state import alloc_set, alloc_obj  # noqa
+from pyvc.loops import havoc_locations  # noqa
+
+REG.fields.update({"_gpr": "ref:GPR", "_model": "ref:Model", "_members": "set:ref:Object", "_genes": "set:ref:Gene",
+                   "_reaction": "set:ref:Reaction"})
+REG.inline.add("Reaction.gpr@getter")
+I_ = z3.IntSort()
+RefSet = z3.ArraySort(Ref, z3.BoolSort())
+EMPTYR = z3.K(Ref, z3.BoolVal(False))
+
+
+def Hh(E, st, f):
+    return E.eng.heap_arr(st, f)
+
+
+def _model_t():
+    return TObj("Model", {"_contexts": TList("ref:HistoryManager"), "genes": TDictList("Gene"), "reactions": TDictList("Reaction"),
+                          "groups": TDictList("Group")})
+
+
+def _entry_model(eng):
+    m = (getattr(eng, "entry_args", None) or {}).get("model")
+    return m if isinstance(m, VObj) and m.cls == "Model" else None
+
+
+def g_getattr_hook(eng, st, v, name):
+    if isinstance(v, VRef) and v.cls == "Gene" and name == "reactions":
+        # Species.reactions: frozenset(self._reaction) - a new set with the gene's current reaction set
+        st2, s = alloc_set(st, "ref:Reaction", dom=z3.Select(eng.heap_arr(st, "_reaction"), v.t))
+        return [("ok", st2, s)]
+    if isinstance(v, VObj) and v.cls == "_Renamer" and name == "visit":
+        return [("ok", st, VFunc("bound", v, "visit"))]             # ast.NodeVisitor.visit: see the call_method hook
+    return None
+
+
+def g_setattr_hook(eng, st, v, name, val):
+    if isinstance(v, VRef) and v.cls == "Gene" and name == "id" and isinstance(val, VStr):
+        # ASSUMED: the Object.id setter for a string - `_id := value` on every branch (equal: pass; in a model:
+        # Object._set_id_with_model, which Gene does not override, is `self._id = value`; otherwise `self._id = value`)
+        return [("ok", st.setheap("_id", z3.Store(eng.heap_arr(st, "_id"), v.t, val.t)), NONE)]
+    return None
+
+
+def vis(st):
+    return st.ghost.get("rn_vis", EMPTYR)
+
+
+def _rd(st, d):
+    rec = st.objs[d.oid]
+    if rec.get("lazy"):
+        return z3.K(Id, z3.BoolVal(False)), z3.K(Id, z3.Const("no_id", Id))
+    return rec["dom"], rec["val"]
+
+
+def _sdom(st, v, sort=Ref):
+    rec = st.objs[v.oid]
+    return z3.K(sort, z3.BoolVal(False)) if rec.get("lazy") else rec["dom"]
+
+
+def g_call_method_hook(eng, st, recv, name, pos, kw):
+    m = _entry_model(eng)
+    if m is None:
+        return None
+    mrec = st.objs[m.oid]
+    if isinstance(recv, VRef) and recv.cls == "GPR" and name == "copy" and not pos and not kw:
+        # ASSUMED: GPR.copy() (deepcopy) returns another object and writes nothing that exists (the copy is only used by the undo
+        # registration inside a context)
+        r = fresh("gpr_copy", Ref)
+        return [("ok", st.assume(r != NULL, r != recv.t), VRef(r, "GPR"))]
+    if isinstance(recv, VObj) and recv.cls == "_Renamer" and name == "visit" and len(pos) == 1 and not kw \
+            and isinstance(pos[0], VRef) and pos[0].cls == "GPR":
+        return _visit_root(eng, st, recv, pos[0])
+    if isinstance(recv, VObj) and recv.oid == m.oid and name == "repair" and not pos and not kw:
+        # RECORDED call (the state as it is now); then everything Model.repair may write in view is havocked
+        if "rn_repair" in st.ghost:
+            raise Unsupported("a second Model.repair call")
+        st = st.setghost("rn_repair", st)
+        gl = mrec["attr:genes"]
+        st = havoc_locations(eng, st, [("list", gl), ("dict", dict_of(st, gl)), ("heap", "_genes"), ("heap", "_reaction"),
+                                       ("heap", "_model")])
+        return [("ok", st, NONE)]
+    return None
+
+
+def _visit_root(eng, st, recv, node):
+    """ASSUMED: ast.NodeTransformer.visit on the ROOT of a rule (GPR object): generic_visit visits the body, every node below is
+    visited once, every Name node by the PROVED visit_Name (identifier := ren(identifier), node returned, so every child list is
+    rebuilt with the same nodes), nothing else is written; by tree induction with the proved lemma renamer/induction-step:
+    semi(ID1, h, g, K) == semi(ID0, h, g, pre(K)).  SEPARATION: rule trees of different GPR objects share no node."""
+    g = node.t
+    tg = eng.heap_arr(st, "ast_tag")
+    eng.oblige(st, z3.And(g != NULL, tg[g] == T_GPR), "call:_Renamer.visit(root)/pre", kind="callpre")
+    ID0 = eng.heap_arr(st, "id")
+    h = tuple(eng.heap_arr(st, f) for f in ("values_n", "values_seq", "body"))
+    dom, val = _rd(st, st.objs[recv.oid]["attr:rename_dict"])
+    P = preimage(dom, val, K_)
+    ID1 = fresh("id_after_visit", RefId)
+    y = qv("sy", Ref)
+    same = lambda KK: semi(ID1, *h, y, KK) == semi(ID0, *h, y, KK)  # noqa
+    st = st.setheap("id", ID1).assume(
+        semi(ID1, *h, g, K_) == semi(ID0, *h, g, P),
+        FA([y], z3.Implies(z3.And(tg[y] == T_GPR, y != g), z3.And(same(K_), same(P))),
+           patterns=[semi(ID1, *h, y, K_), semi(ID1, *h, y, P)]))
+    st = st.setghost("rn_vis", z3.Store(vis(st), g, z3.BoolVal(True)))
+    return [("ok", st, node)]
+
+
+def _renamer_new(eng, st, E):
+    return alloc_obj(st, "_Renamer", {"attr:rename_dict": E["rename_dict"]})
+
+
+REG.add(Contract(MM, "_Renamer.__init__", "C02", [("self", TNone()), ("rename_dict", TDict("id", "id"))], [Case("new")], assumed=True,
+                 key="_Renamer.__init__", result=_renamer_new,
+                 note="_Renamer(d): a new visitor whose rename_dict IS the given dictionary (two-line constructor; super().__init__ of "
+                      "ast.NodeTransformer does nothing)"))
+
+
+HOOKS = chain_hooks({"getattr": g_getattr_hook, "setattr": g_setattr_hook, "call_method": g_call_method_hook},
+                    {"isinstance": V.isinstance_hook, "getattr": V.getattr_hook})
+
+
+GOWN = z3.Const("rn_gown", RefRef)        # ghost: the reaction owning a GPR object
+
+
+class _Cx:
+    def __init__(self, E):
+        self.E = E
+        mrec = E.s0.objs[E["model"].oid]
+        self.gl, self.rx, self.gr = mrec["attr:genes"], mrec["attr:reactions"], mrec["attr:groups"]
+        self.n0, self.e0 = L(E.s0, self.gl)
+        self.dom0, self.val0 = Dv(E.s0, self.gl)
+        self.ids0 = idarr(E, E.s0)
+        self.rdom, self.rval = _rd(E.s0, E["rename_dict"])
+        self.R0 = Hh(E, E.s0, "_reaction")
+        self.gpr = Hh(E, E.s0, "_gpr")
+        self.tg = Hh(E, E.s0, "ast_tag")
+        self.ID0 = Hh(E, E.s0, "id")
+        self.h = V.heap3(E, E.s0)
+        self.P = preimage(self.rdom, self.rval, K_)
+
+    def memb0(self, g):
+        return z3.And(z3.Select(self.dom0, self.ids0[g]), self.e0[self.val0[self.ids0[g]]] == g)
+
+
+def _pre(E):
+    c = _Cx(E)
+    k, k2, x = qv("pk", Id), qv("pk2", Id), qv("px", Ref)
+    g = c.gpr[x]
+    return z3.And(WF(E, E.s0, c.gl), C3._ctx_nonnull(E, "model"), C3._ctxs(E.s0, E["model"])[0] == 0,
+                  # every rule object is a GPR object owned by one reaction
+                  FA([x], z3.Implies(g != NULL, z3.And(c.tg[g] == T_GPR, GOWN[g] == x)), patterns=[g]))
+
+
+def _fresh_new_ids(E):
+    """PRE1: every new identifier is unused (names no gene of the model), is not itself an old identifier of the dictionary (no
+    chains, no identity entries), and two old identifiers that name genes of the model have different new identifiers (no merge)"""
+    c = _Cx(E)
+    k, k2 = qv("pk", Id), qv("pk2", Id)
+    return z3.And(FA([k], z3.Implies(c.rdom[k], z3.And(z3.Not(z3.Select(c.dom0, c.rval[k])), z3.Not(c.rdom[c.rval[k]]))),
+                     patterns=[c.rdom[k]]),
+                  FA([k, k2], z3.Implies(z3.And(c.rdom[k], c.rdom[k2], k != k2, z3.Select(c.dom0, k), z3.Select(c.dom0, k2)),
+                                         c.rval[k] != c.rval[k2]), patterns=[z3.MultiPattern(c.rval[k], c.rval[k2])]))
+
+
+def _genes_part(E, st, done):
+    """model.genes and the identifiers when the entries k with done(k) have been handled"""
+    c = _Cx(E)
+    n, e = L(st, c.gl)
+    ids = idarr(E, st)
+    g = qv("ig", Ref)
+    return [same_list(E, E.s0, st, c.gl), WF(E, st, c.gl),
+            FA([g], ids[g] == z3.If(z3.And(c.memb0(g), done(c.ids0[g])), c.rval[c.ids0[g]], c.ids0[g]), patterns=[ids[g]])]
+
+
+def _rc_part(E, RC, done):
+    """RC (a set of reactions) = the reactions listed by a gene of the model whose identifier is a handled key"""
+    c = _Cx(E)
+    x, j, j2 = qv("cx", Ref), qv("cj"), qv("cj2")
+    ren_ = lambda p: z3.And(0 <= p, p < c.n0, done(c.ids0[c.e0[p]]))  # noqa
+    return [FA([x], z3.Implies(RC[x], z3.Exists([j2], z3.And(ren_(j2), c.R0[c.e0[j2]][x]))), patterns=[RC[x]]),
+            FA([j, x], z3.Implies(z3.And(ren_(j), c.R0[c.e0[j]][x]), RC[x]), patterns=[c.R0[c.e0[j]][x]])]
+
+
+def _dict_order(st, d):
+    rec = st.objs[d.oid]
+    return st.ghost[("order", d.oid, rec["dom"].get_id())]
+
+
+# ---- loop 1: `for old_name, new_name in rename_dict.items()`
+def _inv1(E, Lc):
+    c = _Cx(E)
+    order, pos, card = _dict_order(Lc.st, E["rename_dict"])
+    done = lambda k: z3.And(c.rdom[k], pos[k] < Lc.i)  # noqa
+    x = qv("rx", Ref)
+    RC = _sdom(Lc.st, Lc.var("recompute_reactions"))
+    RGs = _sdom(Lc.st, Lc.var("remove_genes"))
+    return z3.And(*(_genes_part(E, Lc.st, done) + _rc_part(E, RC, done) + [FA([x], z3.Not(RGs[x]), patterns=[RGs[x]])]))
+
+
+def _mod1(E, Lc):
+    gl = _Cx(E).gl
+    return [("heap", "_id"), ("attr", gl, "_dict", lambda st: alloc_dict_id_int(st)),
+            ("setlazy", Lc.var("recompute_reactions"), "ref:Reaction")]
+
+
+# ---- loop 2: `for rxn in recompute_reactions`
+def _rules_part(E, st, visited):
+    c = _Cx(E)
+    ID1 = Hh(E, st, "id")
+    x = qv("vx", Ref)
+    g = c.gpr[x]
+    same = lambda KK: semi(ID1, *c.h, g, KK) == semi(c.ID0, *c.h, g, KK)  # noqa
+    VIS = vis(st)
+    y = qv("vy", Ref)
+    return [FA([x], z3.Implies(z3.And(g != NULL, visited(x)), semi(ID1, *c.h, g, K_) == semi(c.ID0, *c.h, g, c.P)), patterns=[g]),
+            FA([x], z3.Implies(z3.And(g != NULL, z3.Not(visited(x))), z3.And(same(K_), same(c.P))), patterns=[g]),
+            FA([y], VIS[y] == z3.And(y != NULL, c.gpr[GOWN[y]] == y, visited(GOWN[y])), patterns=[VIS[y]])]
+
+
+def _inv2(E, Lc):
+    _, order, pos, D = Lc.seq.src[:4]
+    visited = lambda x: z3.And(D[x], pos[x] < Lc.i)  # noqa
+    return z3.And(*_rules_part(E, Lc.st, visited))
+
+
+def _mod2(E, Lc):
+    return [("heap", "id"), ("ghost", "rn_vis", lambda st: fresh("rn_vis", RefSet))]
+
+
+def _post(E):
+    sn = E.s1.ghost.get("rn_repair")
+    if sn is None:
+        return z3.BoolVal(False)
+    c = _Cx(E)
+    done = lambda k: c.rdom[k]  # noqa
+    rc = None
+    for _fid, (_parent, vars_) in sn.frames.items():
+        if "recompute_reactions" in vars_ and "gene_renamer" in vars_:
+            rc = vars_["recompute_reactions"]
+    if rc is None:
+        return z3.BoolVal(False)
+    RC = _sdom(sn, rc)
+    domN, valN = Dv(sn, c.gl)
+    k = qv("qk", Id)
+    cs = _genes_part(E, sn, done) + _rc_part(E, RC, done) + _rules_part(E, sn, lambda x: RC[x])
+    # lookups: a renamed gene is found under its new identifier at its old position and not under the old one; the others as before
+    cs += [FA([k], z3.Implies(z3.And(c.rdom[k], z3.Select(c.dom0, k)),
+                              z3.And(z3.Select(domN, c.rval[k]), valN[c.rval[k]] == c.val0[k], z3.Not(z3.Select(domN, k)))),
+              patterns=[c.rval[k]]),
+           FA([k], z3.Implies(z3.And(z3.Not(c.rdom[k]), z3.Select(c.dom0, k)), z3.And(z3.Select(domN, k), valN[k] == c.val0[k])),
+              patterns=[z3.Select(domN, k)])]
+    # nothing else is written before Model.repair() is called
+    for f in ("_model", "_members", "_reaction", "_genes", "_gpr", "values_n", "values_seq", "body", "ast_tag", "op"):
+        a, b = Hh(E, sn, f), Hh(E, E.s0, f)
+        if not a.eq(b):
+            cs.append(a == b)
+    cs += [same_list(E, E.s0, sn, c.rx), same_index(E, E.s0, sn, c.rx), same_list(E, E.s0, sn, c.gr), same_index(E, E.s0, sn, c.gr)]
+    return z3.And(*cs)
+
+
+def _mod(E):
+    c = _Cx(E)
+    return (dl_locs(Env({"self": c.gl}, E.s0, eng=E.eng)) + [("attr", c.gl, "_dict", lambda st: alloc_dict_id_int(st))] +
+            [("heap", f) for f in ("_id", "id", "_genes", "_reaction", "_model")] +
+            [("ghost", "rn_vis", lambda st: fresh("rn_vis", RefSet))])
+
+
+_c1 = Case("fresh_new_ids:no_context", requires=_fresh_new_ids, ensures=_post)
+_c1.domain = _c1.requires          # stated restriction: calls with dependent entries / merges are outside this case
+REG.add(Contract(MM, "rename_genes", "C02", [("model", _model_t()), ("rename_dict", TDict("id", "id"))], [_c1],
+                 pre=_pre, modifies=_mod, key="rename_genes", props=["C02"],
+                 axioms=lambda E: semi_axioms(E, E.s0),
+                 loops={1: LoopSpec(_inv1, _mod1), 2: LoopSpec(_inv2, _mod2)},
+                 note="no context open; PRE1 (case requires): every new identifier unused, no chains, no two genes renamed onto one "
+                      "identifier; Model.repair() RECORDED (state) and its write set havocked; _Renamer.visit on the root GPR object, "
+                      "the renamer's constructor, the Object.id setter (`_id := value`), GPR.copy (another object) assumed as "
+                      "described in the module docstring"))
+KEYS = ["rename_genes"]
